@@ -18,7 +18,7 @@ COMPONENTS = E1_COMPONENTS
 ASSUMPTIONS = E1_ASSUMPTIONS + [
     "index titles: the path separator of the relative directory may be kept or replaced by the configured separator "
     "(the statement does not choose); both are accepted"]
-PROBES = ["rerun_over_longer_stale_indexes", "cwd_inside_tree", "dir_pattern_excluded", "dir_auto_excluded", "dir_emptied_by_exclusion", "depth_ge_2_recursive",
+PROBES = ["name_or_prefix_with_backslash", "directory_named_CMakeFiles", "rerun_over_longer_stale_indexes", "cwd_inside_tree", "dir_pattern_excluded", "dir_auto_excluded", "dir_emptied_by_exclusion", "depth_ge_2_recursive",
           "sep_not_dot", "nested_below_dir_without_cmake", "nonrecursive", "prefix_default", "prefix_explicit"]
 
 
@@ -31,6 +31,7 @@ def swarm(rng, tier):
         "rst_opts": rng.random() < 0.6,
         "max_patterns": rng.choice([0, 2, 3, 4]),
         "single": False,
+        "backslash_names": rng.random() < 0.25,
     }
 
 
@@ -136,6 +137,10 @@ def evaluate(spec, ctx):
         if not spec["recursive"]:
             ctx.probes["nonrecursive"] += 1
         ctx.probes["prefix_default" if spec["prefix"] is None else "prefix_explicit"] += 1
+        if any("\\" in k for k in tree) or "\\" in (spec["prefix"] or ""):
+            ctx.probes["name_or_prefix_with_backslash"] += 1
+        if any(posixpath.basename(k) == "CMakeFiles" for k in ch):
+            ctx.probes["directory_named_CMakeFiles"] += 1
         if any(v["cwd"] == spec["proj"] or v["cwd"].startswith(spec["proj"] + "/") for v in spec["variants"]):
             ctx.probes["cwd_inside_tree"] += 1
         if any(d for d in ch if d and not any(f.endswith(".cmake") for f in ch[d][1])
